@@ -88,3 +88,104 @@ def helper_units(props=ALL_SESSION_PROPS):
         units.append(Unit('%s.%s' % (cls, name), q, b, spec, kind='session', receiver=recv, method=name,
                           props=props, clause_props=clause_props))
     return units
+
+
+def timer_units(props):
+    units = []
+    for name, spec, nargs in (('cancel', CT.spec_cancel, 0), ('reset', CT.spec_reset, 1), ('active', CT.spec_active, 0)):
+        units.append(Unit('BGPTimer.' + name, CT.Q + name, (lambda it, n=nargs: CT.build_concrete(it, n)), spec,
+                          kind='timer', props=props, verify_kw={'abstraction': CT._abs}))
+    return units
+
+
+def rx_units(props=ALL_SESSION_PROPS + ('C04', 'C05', 'C10')):
+    from contracts import protocol_rx as RX
+    units = []
+
+    def b(it, name):
+        p = it.p
+        S = Session(it, with_protocol=True, peer_id_fork=(name in ('_open_received', 'parse_buffer')))
+        roots = [S.fsm, S.peering, it.prog.models.conf, S.P]
+        args = [S.P]
+        if name in ('_open_received', '_update_received', '_keepalive_received'):
+            args += [SNum(z3.Real('timestamp')), SBytes.fresh('msg')]
+        elif name == '_notification_received':
+            e, sub = SNum(z3.Int('error')), SNum(z3.Int('suberror'))
+            p.assume(z3.And(e.t >= 0, e.t <= 255, sub.t >= 0, sub.t <= 255))
+            args += [(e, sub, SBytes.fresh('data'))]
+        elif name == '_route_refresh_received':
+            afi, res, safi = SNum(z3.Int('afi')), SNum(z3.Int('res')), SNum(z3.Int('safi'))
+            mt = SNum(z3.Int('msg_type'))
+            p.assume(z3.Or(mt.t == 5, mt.t == 128))
+            args += [(afi, res, safi), mt]
+        return roots, args, {}, S
+    for name, spec in RX.RX_SPECS.items():
+        units.append(Unit('BGP.' + name, CS.BGP + name, (lambda it, n=name: b(it, n)), spec, kind='session',
+                          receiver='protocol', method=name, props=props, clause_props=clause_props,
+                          verify_kw=({'light': True} if name == '_update_received' else {})))
+        if name == '_open_received':
+            units[-1].materialise = materialise_open
+        if name == '_update_received':
+            units[-1].materialise = materialise_update
+    q = CS.BGP + 'negotiate_hold_time'
+
+    def bn(it):
+        S = Session(it, with_protocol=True)
+        h = SNum(z3.Int('proposed_hold'))
+        it.p.assume(z3.And(h.t >= 0, h.t <= 65535))
+        return [S.fsm, S.peering, it.prog.models.conf, S.P], [S.P, h], {}, S
+    units.append(Unit('BGP.negotiate_hold_time', q, bn, RX.HELPER_SPECS[q], kind='session', receiver='protocol',
+                      method='negotiate_hold_time', props=props, clause_props=clause_props))
+    return units
+
+
+def _mconst(model, name, default=None):
+    for d in model.decls():
+        if str(d) == name:
+            v = model[d]
+            if z3.is_int_value(v):
+                return v.as_long()
+            if z3.is_true(v):
+                return True
+            if z3.is_false(v):
+                return False
+    return default
+
+
+def synth_open_body(model, body):
+    """OPEN body consistent with the abstract decode oracles of the model (see p_open_parse_abs)"""
+    if len(body) < 10:
+        return body
+    fixed = bytearray(body[:10])
+    if fixed[9] == 0:
+        return bytes(fixed)
+    k = _mconst(model, 'ora!open-opt!0', 3)
+    addpath = b'\x02\x06\x45\x04\x00\x01\x01\x03' if _mconst(model, 'ora!open-addpath!0', False) else b''
+    if k == 0:
+        params = b'\x01\x00' if _mconst(model, 'ora!open-ome-unsup-param!0', True) else b'\x02\x01\x41'
+    elif k == 1:
+        params = b'\x02\x04\x41\x02\x00\x01'           # capability 65 with a 2-octet value: struct.error
+    elif k == 2:
+        asn4 = _mconst(model, 'ora!open-asn4!0', 0)
+        params = b'\x02\x06\x41\x04' + asn4.to_bytes(4, 'big') + addpath
+    else:
+        params = b'\x02\x06\x01\x04\x00\x01\x00\x01' + addpath
+    fixed[9] = len(params)
+    return bytes(fixed) + params
+
+
+def materialise_open(unit, outcome, model, req):
+    from pyvc import replay as RP
+    body = RP.unj(req['args'][1])
+    req['args'][1] = RP.jval(synth_open_body(model, body))
+    return req
+
+
+def materialise_update(unit, outcome, model, req):
+    from pyvc import replay as RP
+    if _mconst(model, 'ora!update_receive_version-raises!0', False):
+        return None
+    k = _mconst(model, 'ora!update-parse!0', 1)
+    body = {0: b'', 1: b'\x00\x00\x00\x00', 2: b'\x00\x00\x00\x04\x40\x01\x01\x07'}[k]
+    req['args'][1] = RP.jval(body)
+    return req
